@@ -3,7 +3,9 @@
     distribution forward dimension by dimension (CombinedTransition of Markov stages: Pi1 on dimension 0, then Pi2 on dimension 1)
     equals pushing the flattened array D[z1 * n2 + z2] through the single matrix np.kron(Pi1, Pi2); the same for the expectation
     (backward) operators; the two dimensions may be applied in either order; and the Kronecker product of row-stochastic matrices
-    is row-stochastic.  Identities of integer polynomials: valid in every commutative ring. *)
+    is row-stochastic; and the product of stationary distributions of the two matrices is stationary for the dimension-by-dimension transition,
+    hence (first statement) for the Kronecker product: both formulations have the same steady-state exogenous distribution.
+    Identities of integer polynomials: valid in every commutative ring. *)
 From Coq Require Import ZArith Bool List.
 From SSJ Require Import Lib.Sums Model.Transitions Model.Kron Proofs.KronProofs.
 Import ListNotations.
@@ -15,11 +17,16 @@ Theorem kron_equals_sequential : forall n1 n2 (Pi1 Pi2 D : Z -> Z -> Z), 0 <= n1
   (forall z1 z2, fwd_dim1 n2 Pi2 (fwd_dim0 n1 Pi1 D) z1 z2 = fwd_dim0 n1 Pi1 (fwd_dim1 n2 Pi2 D) z1 z2 /\
                  exp_dim0 n1 Pi1 (exp_dim1 n2 Pi2 D) z1 z2 = exp_dim1 n2 Pi2 (exp_dim0 n1 Pi1 D) z1 z2) /\
   ((forall a, 0 <= a < n1 -> zs 0 n1 (Pi1 a) = 1) -> (forall b, 0 <= b < n2 -> zs 0 n2 (Pi2 b) = 1) ->
-   forall a b, 0 <= a < n1 -> 0 <= b < n2 -> zs 0 (n1 * n2) (kron n2 Pi1 Pi2 (a * n2 + b)) = 1).
+   forall a b, 0 <= a < n1 -> 0 <= b < n2 -> zs 0 (n1 * n2) (kron n2 Pi1 Pi2 (a * n2 + b)) = 1) /\
+  (forall p1 p2 : Z -> Z, (forall z1', zs 0 n1 (fun z1 => Pi1 z1 z1' * p1 z1) = p1 z1') -> (forall z2', zs 0 n2 (fun z2 => Pi2 z2 z2' * p2 z2) = p2 z2') ->
+   forall z1' z2', 0 <= z2' < n2 -> fwd_seq n1 n2 Pi1 Pi2 (fun a b => p1 a * p2 b) z1' z2' = p1 z1' * p2 z2' /\
+                   fwd_kron n1 n2 Pi1 Pi2 (fun a b => p1 a * p2 b) (z1' * n2 + z2') = p1 z1' * p2 z2').
 Proof.
   intros n1 n2 Pi1 Pi2 D H1 H2. split; [intros; apply kron_forward_lemma; assumption|].
   split; [intros; apply kron_expectation_lemma; assumption|]. split; [intros; apply dims_commute_lemma|].
-  apply kron_stochastic_lemma; assumption.
+  split; [apply kron_stochastic_lemma; assumption|].
+  intros p1 p2 Hp1 Hp2 z1' z2' Hz. split; [apply product_stationary_lemma; assumption|].
+  rewrite kron_forward_lemma by assumption. apply product_stationary_lemma; assumption.
 Qed.
 Print Assumptions kron_equals_sequential.
 
